@@ -43,6 +43,7 @@ type Config struct {
 	DisableLRU     bool
 	Engine         string
 	WCrash, WReload int // per mille of steps
+	WPark           int // per mille of steps: park the block write / tracker commit at a named site, then crash there or query meanwhile
 	SleepPct       int
 	QueriesPerStep int
 	AddBlockPct    int // share of blocks added with AddBlock (re-evaluated inside the ledger) instead of AddValidatedBlock
@@ -72,6 +73,7 @@ type Sim struct {
 	uniq   uint64
 
 	observers []Observer
+	park      *parkCtl
 	stats   map[string]int64
 	stateDg map[string]bool
 	viol    *kernel.Violation
@@ -101,11 +103,15 @@ func drawConfig(tp *kernel.Tape, prop, tier string) Config {
 	c.DisableLRU = tp.Chance("cfg.nolru", 1, 3)
 	c.WCrash = []int{0, 30, 80}[tp.Choose("cfg.crash", 3)]
 	c.WReload = []int{0, 20, 60}[tp.Choose("cfg.reload", 3)]
+	c.WPark = []int{0, 40, 120}[tp.Choose("cfg.park", 3)]
 	c.SleepPct = []int{0, 20, 50, 90}[tp.Choose("cfg.sleep", 4)]
 	c.QueriesPerStep = tp.Range("cfg.queries", 2, 12)
 	c.AddBlockPct = []int{0, 30, 100}[tp.Choose("cfg.addblock", 3)]
 	if prop == "C09" && c.WCrash == 0 {
 		c.WCrash = 60
+	}
+	if (prop == "C09" || prop == "C08") && c.WPark == 0 {
+		c.WPark = 60
 	}
 	if f := cfgTweaks[prop]; f != nil {
 		f(&c, func(kind string, lo, hi int) int { return tp.Range(kind, lo, hi) })
@@ -184,6 +190,61 @@ func (s *Sim) crash(why string) {
 	s.afterReopen("crash")
 }
 
+// crashParked: a writer goroutine of the ledger is stopped at a named site inside a block write or a
+// tracker commit. Take the durable image now, then let the abandoned instance run on (it can only
+// touch its own files) and reopen from the image.
+func (s *Sim) crashParked(site string) {
+	s.inc++
+	next := filepath.Join(s.dir, fmt.Sprintf("led%d", s.inc))
+	if err := copyDir(s.ledDir, next); err != nil {
+		s.harness = "copy ledger dir: " + err.Error()
+		return
+	}
+	old := s.led
+	s.ledDir = next
+	s.log.Add("CRASH at %s latest=%d acked=%d", site, s.latest, s.acked)
+	s.stat("crash", 1)
+	s.stat("crash@"+site, 1)
+	s.park.releaseAll()
+	go old.Close()
+	synctest.Wait()
+	if err := s.open(); err != nil {
+		s.violate("C09", "reopen-failed", "", fmt.Sprintf("OpenLedger on the image of a crash at %s failed: %v", site, err))
+		return
+	}
+	s.afterReopen("crash@" + site)
+}
+
+// queryWhileParked: the tracker commit is stopped half-way (e.g. its DB transaction has committed but
+// the in-memory trackers have not been advanced). Queries issued now must still answer from history:
+// they either complete with the right answer, or block until the commit finishes and then answer.
+func (s *Sim) queryWhileParked(site string, qseed uint64) {
+	done := make(chan struct{})
+	go func() {
+		defer close(done)
+		s.afterBlock(qseed)
+		if s.viol == nil {
+			s.fullCheck("during-" + site)
+		}
+	}()
+	synctest.Wait()
+	finished := false
+	select {
+	case <-done:
+		finished = true
+	default:
+	}
+	if finished {
+		s.stat("query_during_commit_completed", 1)
+	} else {
+		s.stat("query_during_commit_blocked_until_commit", 1)
+	}
+	s.park.releaseAll()
+	synctest.Wait()
+	<-done
+	s.log.Add("queries during %s: completed-before-release=%v", site, finished)
+}
+
 func (s *Sim) reload() {
 	s.log.Add("clean reload latest=%d", s.latest)
 	s.stat("reload", 1)
@@ -250,6 +311,13 @@ func (s *Sim) proposer() basics.Address {
 			return a.Addr
 		}
 	}
+	// nobody is online any more: any funded account can be named as proposer (a header without a
+	// proposer is invalid while payouts are enabled; the evaluator does not require it to be online)
+	for _, a := range Accounts()[:nAccounts] {
+		if ad, ok := st.Accts[a.Addr]; ok && !ad.MicroAlgos.IsZero() {
+			return a.Addr
+		}
+	}
 	return basics.Address{}
 }
 
@@ -282,6 +350,14 @@ func (s *Sim) addBlock(gseed uint64, maxGroups int, viaAddBlock bool) {
 	}
 	for _, o := range s.observers {
 		cands = o.ExtraGroups(s, g, ev, &nextHdr, cands)
+	}
+	var pblk *bookkeeping.Block // BlockProposer (obs_pool.go): an observer may supply the block instead of the evaluator loop below
+	for _, o := range s.observers {
+		if bp, ok := o.(BlockProposer); ok && pblk == nil {
+			if b, ok := bp.ProposeBlock(s, g, cands, nextHdr); ok {
+				pblk, cands = b, nil
+			}
+		}
 	}
 	for _, c := range cands {
 		grp := c.Txns
@@ -318,6 +394,9 @@ func (s *Sim) addBlock(gseed uint64, maxGroups int, viaAddBlock bool) {
 	sh := crypto.Hash([]byte(fmt.Sprintf("seed-%d", s.latest+1)))
 	copy(seed[:], sh[:])
 	blk := ub.FinishBlock(seed, prp, true)
+	if pblk != nil {
+		blk = *pblk
+	}
 	for _, o := range s.observers {
 		if bt, ok := o.(BlockTamperer); ok {
 			bt.TamperBlock(s, g, blk)
@@ -392,6 +471,9 @@ func (s *Sim) run() {
 	s.ledDir = filepath.Join(s.dir, "led0")
 	os.MkdirAll(s.ledDir, 0o755)
 	s.pool = execpool.MakeBacklog(execpool.MakePool(s), 0, execpool.LowPriority, s)
+	s.park = newParkCtl()
+	curPark = s.park
+	defer func() { curPark = nil }()
 	if err := s.open(); err != nil {
 		s.harness = "OpenLedger: " + err.Error()
 		return
@@ -413,6 +495,7 @@ func (s *Sim) run() {
 		var eff [6]int
 		eff[2], eff[4] = rSeed, rQ
 		// --- fault
+		parkSite, parkMode := "", 0
 		switch f := rFault % 1000; {
 		case f >= 1000-s.cfg.WCrash:
 			eff[0] = rFault
@@ -420,9 +503,21 @@ func (s *Sim) run() {
 		case f >= 1000-s.cfg.WCrash-s.cfg.WReload:
 			eff[0] = rFault
 			s.reload()
+		case f >= 1000-s.cfg.WCrash-s.cfg.WReload-s.cfg.WPark:
+			eff[0] = rFault
+			parkSite = parkSites[(rFault/1000)%len(parkSites)]
+			parkMode = (rFault / 4000) % 2 // 0: crash there, 1: query while parked (tracker commit sites), then let it finish
+			if parkSite == "bq.beforePut" || parkSite == "bq.afterPut" {
+				parkMode = 0
+			}
 		}
 		if s.viol != nil || s.harness != "" {
 			break
+		}
+		if parkSite != "" {
+			// a tracker commit only starts if a flush is due: make it due
+			time.Sleep(6 * time.Second)
+			s.park.arm(parkSite)
 		}
 		// --- fake clock: tracker flushes are time driven (balancesFlushInterval)
 		if rSleep%100 < s.cfg.SleepPct {
@@ -440,10 +535,31 @@ func (s *Sim) run() {
 		if s.viol != nil || s.harness != "" {
 			break
 		}
+		if parkSite != "" {
+			s.park.disarmAll()
+			if s.park.isParked(parkSite) {
+				s.stat("parked."+parkSite, 1)
+				if parkMode == 0 {
+					// crash exactly here: the durable image is taken while the writer is stopped mid-way
+					s.crashParked(parkSite)
+				} else {
+					s.queryWhileParked(parkSite, uint64(rQ))
+				}
+				if s.viol != nil || s.harness != "" {
+					break
+				}
+				for j := 0; j < 6; j++ {
+					tp.Canon(base+j, eff[j])
+				}
+				continue
+			}
+			s.stat("park_not_reached."+parkSite, 1)
+		}
 		// --- durability confirmation
 		if rAck%3 == 0 {
 			eff[5] = rAck
 			s.led.WaitForCommit(s.latest)
+			synctest.Wait() // WaitForCommit returns once the block is durable; let the tracker commit it triggered settle too
 			s.acked = s.latest
 			s.stat("acked", 1)
 		}
